@@ -104,8 +104,9 @@ def api_job(job):
     seed, kind = job
     rng = random.Random(seed)
     office = "H" if kind == "district" else "S"
+    extra = {"n_districts": 4, "n_units": rng.randint(110, 150)} if office == "H" else {}      # districts 1, 10, 2, 3: string order differs from numeric order
     case = gen.gen_case(rng, pi_method="bootstrap", office=office, n_states=2, n_unexpected=0,
-                        aggregates=["postal_code", "district", "unit"] if office == "H" else ["postal_code", "unit"], alphas=[0.7, 0.9])
+                        aggregates=["postal_code", "district", "unit"] if office == "H" else ["postal_code", "unit"], alphas=[0.7, 0.9], **extra)
     if office == "H":
         contests = sorted({f"{b['postal_code']}_{b['district']}" for b in case["baseline"]})
     else:
@@ -122,6 +123,9 @@ def api_job(job):
     if kind == "unknown":
         lhs = lhs + ["QQ"]
         bad = "unknown"
+    import copy
+
+    h_plain = aggfam.harvest(copy.deepcopy(case)) if bad is None else None
     case["params"].update({"lhs_called_contests": lhs, "rhs_called_contests": rhs, "stop_model_call": stops})
     h = aggfam.harvest(case)
     res = {"job": list(job), "ok": h["ok"], "exc": h.get("exc"), "bad": bad, "lhs": lhs, "rhs": rhs, "stops": stops, "fails": [], "office": office}
@@ -139,6 +143,17 @@ def api_job(job):
                 res["fails"].append(f"{name} called right: pred {p}, upper_{a} {hi}")
             if name in stops and name not in lhs and name not in rhs and not (lo <= 0 <= hi):
                 res["fails"].append(f"{name} stop-listed: interval_{a} [{lo}, {hi}] does not contain 0")
+    # a contest that is neither called nor stop-listed is reported exactly as in the run without any call
+    if h_plain is not None and h_plain["ok"]:
+        plain = {"_".join(r[c] for c in cols): r for r in h_plain["agg"][f"margin|{agg}"]["rows"]}
+        for rec in h["agg"][f"margin|{agg}"]["rows"]:
+            name = "_".join(rec[c] for c in cols)
+            if name in lhs or name in rhs or name in stops or name not in plain:
+                continue
+            diff = [c for c in rec if isinstance(rec[c], float) and rec[c] == rec[c] and rec[c] != plain[name][c]]
+            if diff:
+                res["fails"].append(f"{name} is neither called nor stop-listed but its {diff[0]} is {rec[diff[0]]} with the calls and {plain[name][diff[0]]} without them")
+                break
     return res
 
 
